@@ -12,7 +12,7 @@
   fuel; "the call returns" = the fuelled run ends in something else than `outOfFuel`.
 -/
 import Mathlib.Data.Rat.Floor
-import PsutilModel.Proofs.C15Procs
+import PsutilModel.Proofs.C15Examples
 import PsutilModel.Model.C15Gen
 namespace Psutil.C15
 open Spec
@@ -30,7 +30,7 @@ def obsProc (env : Env) (timeout : Option Rat) (fuel : Nat) (now : Rat) (p : POb
    (procWait cfg env timeout fuel now p).sleeps⟩
 
 /-- `Process.wait` on an object without a stored exit code, with an acceptable timeout, is `wait_pid` -/
-theorem obsProc_eq_obsWait (env : Env) (timeout : Option Rat) (fuel : Nat) (now : Rat) (p : PObj)
+theorem C15_process_wait_is_wait_pid (env : Env) (timeout : Option Rat) (fuel : Nat) (now : Rat) (p : PObj)
     (hc : p.exitcode = none) (hn : negative timeout = false) :
     obsProc env timeout fuel now p = obsWait env p.pid timeout fuel now p.nWait := by
   simp [obsProc, obsWait, procWait_fresh env timeout fuel now p hc hn]
@@ -108,14 +108,6 @@ theorem C15_timeout_fields (env : Env) (pid : Nat) (timeout : Option Rat) (fuel 
     timeout = some sec ∧ p = pid ∧ now + sec ≤ (obsWait env pid timeout fuel now nWait).ret := by
   obtain ⟨h1, h2, h3, _⟩ := waitPid_timeoutSound cfg_good env pid timeout fuel now nWait sec p h
   exact ⟨h1, h2, h3⟩
-
-/-- the environment of the counterexample: a child that ended at instant 0 with `exit(0)`; the
-    first waitpid call is interrupted -/
-def witnessEnv : Env := ⟨.child 0, some 0, fun n => n == 0⟩
-
-theorem witness_run {c : Cfg} (hg : c.Good) : (waitPid c witnessEnv 7 (some 0) 5 1 0).1 = .timeout 0 7 ∧
-    (waitPid c witnessEnv 7 (some 0) 5 1 0).2.now = 1 := by
-  simp [waitPid, waitLoop, witnessEnv, sleepStep, pastDeadline, hg.check, hg.ge]
 
 /-- counterexample (replayed on the real code by the harness, finding C15-eintr-deadline):
     `wait(timeout=0)` at instant 1 on a child dead since instant 0 raises TimeoutExpired when its
@@ -293,10 +285,6 @@ theorem C15_eintr_harmless_blocking (env : Env) (e' : Nat → Bool) (pid : Nat) 
     · exact absurd hk' (hk st')
     · rw [h, g]
 
-theorem witness_clean_run (c : Cfg) :
-    (waitPid c { witnessEnv with eintr := fun _ => false } 7 (some 0) 5 1 0).1 = .code 0 := by
-  simp [waitPid, waitLoop, witnessEnv, Env.ended, decode, wifexited, wtermsig, wexitstatus]
-
 theorem C15_eintr_harmless_counterexample : ¬ C15_eintr_harmless_Full := by
   intro h
   have h1 := h witnessEnv (fun _ => false) 7 (some 0) 5 1 0
@@ -446,7 +434,22 @@ theorem C15_wait_procs_negative (envOf : Nat → Env) (procs : List Nat) (τ : R
     waitProcs cfg envOf procs (some τ) hasCb order fuel w = .error .valueError := by
   simp [waitProcs, negative, hτ]
 
-/-! ## the hypotheses are satisfiable -/
+/-! ## the hypotheses are satisfiable, the conclusions are not empty -/
+
+/-- a run that sleeps twice and then returns an exit code (never_early / right_status / intervals
+    speak about something): child `exit(1)` at 0.3 ms, timeout 10 ms -/
+example : obsWait exChild 7 (some (1 / 100)) 50 0 0 = ⟨.code 1, 3 / 10000, [1 / 10000, 1 / 5000]⟩ := by
+  unfold obsWait; rw [ex_wait cfg_good]
+
+/-- a run that ends in TimeoutExpired exactly at its deadline with the process alive (timeout_sound /
+    one_poll_late speak about something), and whose last waitpid call was not interrupted -/
+example : obsWait exOther 8 (some (3 / 10000)) 50 0 0 =
+      ⟨.timeout (3 / 10000) 8, 3 / 10000, [1 / 10000, 1 / 5000]⟩ ∧
+    exOther.eintr (lastCall exOther 8 (some (3 / 10000)) 50 0 0) = false := by
+  unfold obsWait lastCall; rw [ex_timeout cfg_good]; exact ⟨rfl, rfl⟩
+
+/-- the fuel bound of the termination theorem is met by small numbers: 10 ms needs 102 iterations -/
+example : ⌈((1 : ℚ) / 100) * 10000⌉₊ + 2 ≤ 102 := by norm_num
 
 /-- objects that have never been waited for form a fresh state -/
 example (envOf : Nat → Env) (now : Rat) :
@@ -455,5 +458,13 @@ example (envOf : Nat → Env) (now : Rat) :
 
 /-- the identity is an admissible iteration order -/
 example : ∀ (k : Nat) (l : List Nat), ((fun _ l => l) k l : List Nat).Perm l := fun _ l => List.Perm.refl l
+
+/-- `wait_procs` does return, with a non-trivial split: [p1, p2, p1] with p1 a child killed by
+    SIGKILL (gone, returncode −9, callback once) and p2 a process that never ends (alive) -/
+example : ∃ w', waitProcs cfg exEnv [1, 2, 1] (some 0) true (fun _ l => l) 5 exW = .ok (w', [2]) ∧
+    w'.gone = [1] ∧ (w'.objs 1).returncode = some (some (-9)) ∧ (w'.objs 2).returncode = none ∧
+    w'.cbLog = [1] ∧ w'.now = 1 := ex_procs cfg_good
+
+example : Fresh exEnv exW := exW_fresh
 
 end Psutil.C15
